@@ -96,7 +96,11 @@ def check(run, res):
                 mine = [c for c in calls if c['hid'] == h['id']]
                 # "runs to completion": it succeeded, or it failed for good (a permanent error ends it just as well)
                 oks = [c for c in mine if c['outcome'] in ('ok', 'perm')]
-                if len(oks) > 1:
+                lost = any(r['outcome'] != 200 for r in sim.cluster.requests
+                           if r['client'] == name and 'patch' in r['classes'] and r.get('name') == vers[0]['name'] and oks and r['t'] >= oks[0]['t0'] - 1e-9)
+                if len(oks) > 1 and lost:
+                    res.label('record-lost-with-the-object')     # (a 404 on the PATCH that was to record the completion: the object is gone, as in C02-I4)
+                elif len(oks) > 1:
                     res.fail('C14/resumed-twice', f'{name}: resume handler {h["id"]} ran to completion {len(oks)} times for {vers[0]["name"]} ({uid}) at t={[(c["t0"], c["outcome"]) for c in oks]}')
                 if uid not in listed0:
                     if mine:
